@@ -36,6 +36,7 @@ func TestVerifReplayC19OIDCStoredSessionClaimsRace(t *testing.T) {
 	for i := 0; i < 300; i++ {
 		code := fmt.Sprintf("code-%d.sig-%d", i, i)
 		stored := fosite.NewAuthorizeRequest()
+		stored.SetID(fmt.Sprintf("grant-%d", i))
 		stored.Client = client
 		stored.Session = &DefaultSession{Claims: &jwt.IDTokenClaims{Subject: "peter"}, Headers: &jwt.Headers{}, Subject: "peter"}
 		stored.GrantedScope = fosite.Arguments{"openid"}
@@ -84,6 +85,7 @@ func TestVerifReplayC19OIDCDeviceStoredSessionClaimsRace(t *testing.T) {
 			t.Fatal(err)
 		}
 		stored := fosite.NewRequest()
+		stored.SetID(fmt.Sprintf("grant-%d", i))
 		stored.Client = client
 		stored.Session = &DefaultSession{Claims: &jwt.IDTokenClaims{Subject: "peter"}, Headers: &jwt.Headers{}, Subject: "peter"}
 		stored.GrantedScope = fosite.Arguments{"openid"}
